@@ -430,6 +430,18 @@ class CallMixin:
         if issubclass(cls, BaseException):
             so = SymObj(cls, {"args": PyList(args, "tuple")})
             return [(st, so)]
+        if issubclass(cls, tuple) and hasattr(cls, "_fields"):
+            # typing.NamedTuple: a record of its fields
+            vals = dict(zip(cls._fields, args))
+            for k, v in kwargs.items():
+                vals[k] = v
+            for f in cls._fields:
+                if f not in vals:
+                    if f in cls._field_defaults:
+                        vals[f] = PyC(cls._field_defaults[f])
+                    else:
+                        raise OutOfSubset(f"missing field {f} of {cls.__name__}", node)
+            return [(st, SymObj(cls, vals))]
         if not cls.__module__.startswith("statham"):
             raise OutOfSubset(f"constructor of {cls.__name__}", node)
         new = _static(cls, "__new__")
@@ -699,7 +711,7 @@ class CallMixin:
             new_names = []
             for dline in self.decls[ndecl:]:
                 parts = dline.replace("(", " ").split()
-                if len(parts) >= 2:
+                if len(parts) >= 2 and parts[0] == "declare-const":
                     new_names.append(parts[1])
             def mentions_new(t):
                 return any(_re.search(r"(?<![\w])" + _re.escape(nm) + r"(?![\w])", t) for nm in new_names)
@@ -776,7 +788,10 @@ class CallMixin:
                 first = fresh_name("first")
                 self.declare(first, "Int")
                 s_ok.assume(f"(=> (> (seq.len {rs}) 0) (and (<= 0 {first}) (< {first} (seq.len {sq})) {at(passes, first)} (= (seq.nth {rs} 0) {elt_term(first)}) (forall (({q} Int)) (=> (and (<= 0 {q}) (< {q} {first})) {Not(pq)}))))")
-                self.trusted_used.add("filter comprehension: len bounds, emptiness iff no index passes, members are images of passing indices, first member from first passing index (List.filter/map lemmas)")
+                # at least two members iff two distinct indices pass
+                p1, p2 = fresh_name("p1"), fresh_name("p2")
+                s_ok.assume(Eq(f"(>= (seq.len {rs}) 2)", f"(exists (({p1} Int) ({p2} Int)) (and (<= 0 {p1}) (< {p1} {p2}) (< {p2} (seq.len {sq})) {at(passes, p1)} {at(passes, p2)}))"))
+                self.trusted_used.add("filter comprehension: len bounds, emptiness iff no index passes, members are images of passing indices, first member from first passing index, >= 2 members iff two indices pass (List.filter/map lemmas)")
         if kind == "dict":
             s_ok.assume(f"(dict_wf {r.t})") if not skolem else None
         out.append((s_ok, r))
